@@ -111,7 +111,9 @@ Ltac mem_norm :=
   repeat (rewrite ?mem_union, ?mem_app, ?mem_diff, ?mem_inter, ?mem_remove1, ?mem_dedup,
                   ?mem_cons, ?mem_nil, ?mem_filter in *).
 
-(* Decide a goal about seteq/subset/disjoint after pointwise reduction. *)
+(* Decide a goal about seteq/subset/disjoint after pointwise reduction:
+   every fact about membership of [x] is moved into the goal, equalities
+   between atoms are decided first, then each [mem _ _] is case-split. *)
 Ltac lset_point x :=
   mem_norm;
   repeat match goal with
@@ -120,9 +122,13 @@ Ltac lset_point x :=
          end;
   mem_norm;
   repeat match goal with
-         | |- context [mem x ?s] => let E := fresh "E" in destruct (mem x s) eqn:E
-         | H : context [mem x ?s] |- _ => let E := fresh "E" in destruct (mem x s) eqn:E
-         | |- context [Z.eqb ?a ?b] => let E := fresh "E" in destruct (Z.eqb_spec a b) as [E|E]; [try subst|]
-         | H : context [Z.eqb ?a ?b] |- _ => let E := fresh "E" in destruct (Z.eqb_spec a b) as [E|E]; [try subst|]
+         | H : context [mem _ _] |- _ => revert H
+         | H : context [Z.eqb _ _] |- _ => revert H
          end;
-  cbn in *; try congruence; try tauto; try lia; auto.
+  repeat match goal with
+         | |- context [Z.eqb ?a ?b] =>
+             let E := fresh "E" in
+             destruct (Z.eqb_spec a b) as [E|E]; [first [subst a | subst b | idtac] | ]
+         end;
+  repeat match goal with |- context [mem ?y ?s] => destruct (mem y s) end;
+  cbn; intros; try congruence; try tauto; try lia; auto.
